@@ -29,6 +29,14 @@ pub struct Plan {
     /// where in the root requirement list the pair requirements are inserted
     pub insert_at: usize,
     pub pairs: Vec<(usize, usize)>,
+    /// ask every question through ONE solver instead of a fresh solver per question
+    pub reuse: bool,
+    /// late discovery: the questions' requirements are issued by a helper two levels down a
+    /// dependency chain (package indices of c0, c1), so they are encoded after decisions
+    pub chain: Option<(usize, usize)>,
+    /// a preferred, hinted blocker candidate whose constrains admit only one group of p:
+    /// the other candidates are already decided false when the chain reveals them
+    pub blocker: Option<usize>,
 }
 
 fn interesting_n(t: &mut Tape, max_n: usize) -> usize {
@@ -172,10 +180,100 @@ impl C15 {
             single.push(u.vsets.len() - 1);
         }
         let insert_at = t.below(reveal_reqs.len() + 1);
+        let mut reuse = t.chance(1, 2);
+        let mk2 = |v: u32| Cand {
+            sid: 0,
+            version: v,
+            deps: Deps::empty(),
+            excluded: None,
+        };
+        // late discovery through a chain, optionally with a blocker
+        let mut chain = None;
+        let mut blocker = None;
+        if t.chance(1, 3) {
+            reuse = false; // the chain's dependencies differ per question
+            if t.chance(2, 3) && n >= 2 {
+                // blocker package: b=1 (preferred, hinted) constrains p to one group; b=2 is free
+                let g = group_of[t.below(n)];
+                let members: Vec<usize> = (0..n).filter(|&i| group_of[i] == g).collect();
+                u.vsets.push(VSet {
+                    id: 0,
+                    pkg: 0,
+                    matches: members,
+                });
+                let cvs = u.vsets.len() - 1;
+                let mut b1 = mk2(1);
+                b1.deps = Deps::Known {
+                    reqs: vec![],
+                    constrains: vec![cvs],
+                };
+                u.packages.push(Package {
+                    name_id: 0,
+                    name: "blocker".into(),
+                    missing: false,
+                    cands: vec![b1, mk2(2)],
+                    sort_rank: vec![0, 1],
+                    favored: None,
+                    locked: None,
+                    hint: Hint::All,
+                    unlisted: vec![],
+                });
+                let bp = u.packages.len() - 1;
+                u.vsets.push(VSet {
+                    id: 0,
+                    pkg: bp,
+                    matches: vec![0, 1],
+                });
+                reveal_reqs.insert(0, Req::Single(u.vsets.len() - 1));
+                blocker = Some(bp);
+            }
+            for name in ["c0", "c1"] {
+                u.packages.push(Package {
+                    name_id: 0,
+                    name: name.into(),
+                    missing: false,
+                    cands: vec![mk2(1)],
+                    sort_rank: vec![0],
+                    favored: None,
+                    locked: None,
+                    hint: Hint::None,
+                    unlisted: vec![],
+                });
+            }
+            let c1 = u.packages.len() - 1;
+            let c0 = c1 - 1;
+            u.vsets.push(VSet {
+                id: 0,
+                pkg: c1,
+                matches: vec![0],
+            });
+            let c1_vs = u.vsets.len() - 1;
+            u.packages[c0].cands[0].deps = Deps::Known {
+                reqs: vec![Req::Single(c1_vs)],
+                constrains: vec![],
+            };
+            u.vsets.push(VSet {
+                id: 0,
+                pkg: c0,
+                matches: vec![0],
+            });
+            reveal_reqs.push(Req::Single(u.vsets.len() - 1));
+            chain = Some((c0, c1));
+        }
         // ids: sparse for solvables (crossing chunk boundaries), dense elsewhere
         let params = crate::gen::Params::default();
         crate::gen::gen_ids(&mut t, &mut u, &params);
-        let pairs: Vec<(usize, usize)> = if n <= self.all_pairs_upto {
+        let pairs: Vec<(usize, usize)> = if chain.is_some() && n > 11 {
+            let mut v = vec![];
+            for _ in 0..60 {
+                let i = t.below(n);
+                let j = t.below(n);
+                if i != j {
+                    v.push((i.min(j), i.max(j)));
+                }
+            }
+            v
+        } else if n <= self.all_pairs_upto {
             (0..n).flat_map(|i| (i + 1..n).map(move |j| (i, j))).collect()
         } else {
             let mut v = vec![];
@@ -196,6 +294,9 @@ impl C15 {
             single,
             insert_at,
             pairs,
+            reuse,
+            chain,
+            blocker,
         }
     }
 }
@@ -211,18 +312,19 @@ impl Property for C15 {
         600
     }
     fn rule(&self) -> String {
-        format!("tape -> candidate count n (1..{}, biased to 2^k-1, 2^k, 2^k+1) + listing order + preference order + REVEAL PLAN: a generated partition of the candidates into groups that the encoder meets, in generated order, through root union requirements (group | always-installable helper), through requirements of hinted-but-unselected helper candidates (eager encoding), or only through the final requirements; then for every pair i<j (all pairs when n<={}, else {} generated pairs) the problem 'root requires {{i}} and {{j}}' and for every i the problem 'root requires {{i}}' are solved and compared with the reference resolver (pair => Unsolvable, single => Ok containing i). Non-trivial: n>=3 and the pair straddles two reveal groups. Distinct = distinct (plan hash, pair); evaluations = number of solver runs.", self.max_n, self.all_pairs_upto, self.sample_pairs)
+        format!("tape -> candidate count n (1..{}, biased to 2^k-1, 2^k, 2^k+1) + listing order + preference order + REVEAL PLAN: a generated partition of the candidates into groups that the encoder meets, in generated order, through root union requirements (group | always-installable helper), through requirements of hinted-but-unselected helper candidates (eager encoding), or only through the final requirements; then for every pair i<j (all pairs when n<={}, else {} generated pairs) the problem 'root requires {{i}} and {{j}}' and for every i the problem 'root requires {{i}}' are solved - with a fresh solver per question or (generated) all through ONE reused solver - and compared with the reference resolver (pair => Unsolvable, single => Ok containing i). Non-trivial: n>=3 and the pair straddles two reveal groups. Distinct = distinct (plan hash, pair); evaluations = number of solver runs.", self.max_n, self.all_pairs_upto, self.sample_pairs)
     }
     fn describe(&self, tape: &[u16]) -> String {
         let p = self.plan(tape);
         format!(
-            "n={} groups={:?} reveal_reqs={} insert_at={} pairs={} hint={:?}\n",
+            "n={} groups={:?} reveal_reqs={} insert_at={} pairs={} hint={:?} one_solver={}\n",
             p.n,
             p.group_of,
             p.reveal_reqs.len(),
             p.insert_at,
             p.pairs.len(),
-            p.u.packages[0].hint
+            p.u.packages[0].hint,
+            p.reuse
         )
     }
     fn eval(&self, tape: &[u16]) -> CaseReport {
@@ -243,25 +345,67 @@ impl Property for C15 {
         if n >= 65 {
             rep.labels.push("n>=65");
         }
-        let build = |extra: &[usize]| -> Problem {
+        if plan.chain.is_some() {
+            rep.labels.push("late-discovery-chain");
+        }
+        if plan.blocker.is_some() {
+            rep.labels.push("revealed-while-false");
+        }
+        // (universe, problem) of one question
+        let build = |extra: &[usize]| -> (Rc<Universe>, Problem) {
             let mut reqs = plan.reveal_reqs.clone();
-            for (k, &vs) in extra.iter().enumerate() {
-                reqs.insert((plan.insert_at + k).min(reqs.len()), Req::Single(vs));
+            match plan.chain {
+                None => {
+                    for (k, &vs) in extra.iter().enumerate() {
+                        reqs.insert((plan.insert_at + k).min(reqs.len()), Req::Single(vs));
+                    }
+                    (
+                        u.clone(),
+                        Problem {
+                            reqs,
+                            constraints: vec![],
+                            soft: vec![],
+                        },
+                    )
+                }
+                Some((_, c1)) => {
+                    let mut u2 = (*u).clone();
+                    u2.packages[c1].cands[0].deps = Deps::Known {
+                        reqs: extra.iter().map(|&vs| Req::Single(vs)).collect(),
+                        constrains: vec![],
+                    };
+                    (
+                        Rc::new(u2),
+                        Problem {
+                            reqs,
+                            constraints: vec![],
+                            soft: vec![],
+                        },
+                    )
+                }
             }
-            Problem {
-                reqs,
-                constraints: vec![],
-                soft: vec![],
-            }
+        };
+        let mut shared = if plan.reuse {
+            rep.labels.push("one-solver-for-all-questions");
+            Some(Session::new(u.clone(), &Runtime::Sync, None))
+        } else {
+            None
         };
         let cfg = RunCfg {
             render: false,
             ..Default::default()
         };
+        let mut ask = |q: &(Rc<Universe>, Problem)| -> StepResult {
+            match shared.as_mut() {
+                Some(s) => s.solve(&q.1, Cancel::Never, false, false),
+                None => run_once(&q.0, &q.1, &cfg),
+            }
+        };
         // singles
         for i in 0..n {
-            let p = build(&[plan.single[i]]);
-            let res = run_once(&u, &p, &cfg);
+            let q = build(&[plan.single[i]]);
+            let res = ask(&q);
+            let (uq, p) = (&q.0, &q.1);
             rep.evaluations += 1;
             if let Some(f) = abnormal(&res.outcome, Cancel::Never) {
                 rep.failure = Some(Failure {
@@ -277,13 +421,13 @@ impl Property for C15 {
             };
             let ok = match &res.outcome {
                 Outcome::Sat(sol) => solution_refs(&ix, sol)
-                    .map(|r| r.contains(&want) && valid(&u, &p, &r, &[]).is_ok())
+                    .map(|r| r.contains(&want) && valid(uq, p, &r, &[]).is_ok())
                     .unwrap_or(false),
                 _ => false,
             };
             if !ok {
                 // consult the reference: the plan must make this satisfiable
-                match exists_solution(&u, &p, &[want], REF_BUDGET) {
+                match exists_solution(uq, p, &[want], REF_BUDGET) {
                     Exists::Yes(_) => {
                         rep.failure = Some(Failure {
                             signature: "C15:single-candidate-not-selectable".into(),
@@ -302,8 +446,8 @@ impl Property for C15 {
         // pairs
         let mut straddling = 0u64;
         for &(i, j) in &plan.pairs {
-            let p = build(&[plan.single[i], plan.single[j]]);
-            let res = run_once(&u, &p, &cfg);
+            let q = build(&[plan.single[i], plan.single[j]]);
+            let res = ask(&q);
             rep.evaluations += 1;
             if let Some(f) = abnormal(&res.outcome, Cancel::Never) {
                 rep.failure = Some(Failure {
